@@ -1,81 +1,129 @@
 """C15 — GameCube/Wii pack archive: build -> parse is identity, layout is aligned, the parser accepts any
 conforming layout.  spec/Fe9Pack.tla (CanonPack, LayoutImage, WellFormedPack, RefParsePack);
 MC_Fe9Pack (laws, exhaustive over the bounded scope) -> Gen_Fe9Pack -> `mvh_cont pack-replay`;
-`mvh_cont pack-record` -> Trace_Fe9Pack."""
+`mvh_cont pack-record` -> Trace_Fe9Pack.
+
+What is demanded of the image mila's builder emits is exactly what the statement lists, decided by TLC on mila's
+bytes (Trace_Fe9Pack): count exact, every recorded name terminated inside the file and equal to the key, file
+offsets/sizes exact and inside the file, every body address % 32 = 0, reference parse = value in order, and
+mila's own parse of it = value.  Where names sit, how they are padded and whether the file ends on a 32-byte
+boundary are open; a byte difference from the specification's CanonPack(v) is reported as a NOTE only."""
 import vlib
 import cont_common as cc
 
 LEVEL = "model_checking"
+NOTE_LIMIT = 3
 
 
 def _report(ctx, cases, mism, profile="release"):
     for o in mism:
         c = cases[o["i"]]
-        img = o.get("image", o.get("expected"))
-        one = {"v": c["v"], "canon": c["canon"], "layouts": [img] if o["what"] == "parse-layout" else []}
+        one = {"v": c["v"], "canon": c["canon"], "layouts": [o["image"]] if o["what"] == "parse-layout" else []}
         ctx.violation({"dir": "spec->impl", "profile": profile, "what": o["what"], "files": len(c["v"]),
                        "lens": [len(f[1]) for f in c["v"]][:12], "got": cc.shrink(o["got"], 300)},
                       {"case": one, "got": cc.shrink(o["got"])})
+
+
+def _informational(ctx, cases, out_path):
+    """Byte differences between serialize() and CanonPack(v): information, never a violation."""
+    for o in vlib.read_ndjson(out_path):
+        if o["kind"] != "info":
+            continue
+        n = ctx.extra["informational_mismatches"] = ctx.extra.get("informational_mismatches", 0) + 1
+        if n <= NOTE_LIMIT:
+            c = cases[o["i"]]
+            print("NOTE (beyond the property statement): serialize() image (%d bytes) differs from the specification's "
+                  "CanonPack (%d bytes) for %d file(s) with body lengths %s; the image itself is judged by the statement's "
+                  "conditions only" % (o["got_len"], o["canon_len"], len(c["v"]), [len(f[1]) for f in c["v"]][:8]), flush=True)
+
+
+def _replay(ctx, binary, cases, stem, profile):
+    """replay generated cases; returns the events (mila's serialized images) for the trace validator"""
+    summ, mism, unb = cc.replay(ctx, binary, "pack-replay", cases, stem)
+    _report(ctx, cases, mism, profile)
+    opath = ctx.path(stem + "_out.ndjson")
+    if profile == "release":
+        _informational(ctx, cases, opath)
+    events = vlib.read_ndjson(opath + ".events")
+    if len(events) != len(cases) - len(unb):
+        raise vlib.ToolError("replay logged %d images for %d cases" % (len(events), len(cases)))
+    for e in events:
+        e["profile"] = profile
+    return summ, unb, events
+
+
+def _validate(ctx, events):
+    tpath = ctx.path("pack_trace.ndjson")
+    vlib.write_ndjson(tpath, events)
+    rep = cc.validate(ctx, "Trace_Fe9Pack", tpath, len(events))
+    for b in rep["bad"]:
+        i, ev = b["i"], events[b["i"] - 1]
+        small = len(ev["bytes"]) <= 20000
+        detail = {"index": i, "event": ev if small else {"files": len(ev["value"]), "ser": ev["ser"]}}
+        if ev["src"] == "replay":
+            detail["case"] = {"v": ev["value"], "canon": [], "layouts": []}
+        ctx.violation({"dir": "impl->spec", "src": ev["src"], "profile": ev.get("profile", "release"), "failed": b["why"],
+                       "files": len(ev["value"]), "ser": ev["ser"][:200], "lens": [len(f[1]) for f in ev["value"]][:12]}, detail)
 
 
 def run(ctx):
     ctx.rule = ("MC: every ordered value of 0..3 files (names '', ASCII, 2-byte Shift-JIS incl. trail byte 0x5C; body "
                 "lengths 0,1,31,32,33,64) and every placement in scope (all orders of names/bodies for <=2 files, curated "
                 "for 3, gaps/fill/tail variants; thorough: all 720 orders and seeded pseudo-random 4..8 files); "
-                "spec->impl: serialize compared byte-exact with CanonPack, parse of every image compared with the value; "
-                "impl->spec: seeded random maps up to 300 files (lengths around multiples of 32, Shift-JIS names) "
-                "validated by the TLA+ reference reader. Non-trivial = image holding at least one file.")
+                "spec->impl: parse of the canonical image and of every re-arranged image compared with the value (order "
+                "included), parse(serialize(v)) compared with v; impl->spec: serialize(v) of every generated value and of "
+                "seeded random maps up to 300 files (lengths around multiples of 32, Shift-JIS names) validated by TLC with "
+                "the statement's conditions (well-formed, exact, 32-aligned bodies, reference parse = value). "
+                "Non-trivial = image holding at least one file.")
     binary = ctx.build("release", "mvh_cont")
     actions = ["PickValue", "PickLayout"] + ([] if ctx.quick() else ["PickAllOrders", "PickSeed", "StepSeed"])
     cc.model_check(ctx, "MC_Fe9Pack", actions)
-    # spec -> impl
+    # spec -> impl (reader) and collection of the builder's images
     cases = cc.generate(ctx, "MC_Fe9Pack", "Gen_Fe9Pack.cfg")
-    summ, mism, unb = cc.replay(ctx, binary, "pack-replay", cases, "pack")
-    _report(ctx, cases, mism)
-    _report(ctx, cases, cc.replay_checked(ctx, "pack-replay", cases, "pack"), profile="checked")
-    ctx.traces += summ["images"] + summ["cases"]
-    ctx.evaluations += summ["images"] + 2 * summ["cases"]
+    summ, unb, events = _replay(ctx, binary, cases, "pack", "release")
+    if not ctx.quick():
+        summ_c, unb_c, events_c = _replay(ctx, ctx.build("checked", "mvh_cont"), cases, "pack_checked", "checked")
+        events += events_c
+        ctx.traces += summ_c["images"]
+        ctx.extra["checked_profile_replayed"] = summ_c["cases"]
+    n_replay_events = len(events)
+    ctx.traces += summ["images"]
+    ctx.evaluations += summ["images"] + summ["cases"]
     ctx.nontrivial += sum(1 + len(c["layouts"]) for c in cases if c["v"])
     mid = cases[len(cases) // 2]
     ctx.sample({"replayed_value": mid["v"], "canon_len": len(mid["canon"]), "layouts": len(mid["layouts"])})
     ctx.extra["generated_values"] = len(cases)
     ctx.extra["images_parsed"] = summ["images"]
-    # impl -> spec
+    ctx.extra.setdefault("informational_mismatches", 0)
+    # impl -> spec: the builder's images of the generated values and of random maps, judged by TLC
     runs, max_files = ctx.pick((60, 300), (3000, 300))
-    tpath = ctx.path("pack_trace.ndjson")
-    ctx.harness(binary, ["pack-record", tpath, str(runs), str(max_files)] + ([] if ctx.quick() else ["big"]))
-    events = vlib.read_ndjson(tpath)
-    rep = cc.validate(ctx, "Trace_Fe9Pack", tpath, len(events))
-    for b in rep["bad"]:
-        i, ev = b["i"], events[b["i"] - 1]
-        small = len(ev["bytes"]) <= 20000
-        ctx.violation({"dir": "impl->spec", "failed": b["why"], "files": len(ev["value"]), "ser": ev["ser"][:200],
-                       "lens": [len(f[1]) for f in ev["value"]][:12]},
-                      {"index": i, "event": ev if small else {"files": len(ev["value"]), "ser": ev["ser"]}})
+    rpath = ctx.path("pack_record.ndjson")
+    ctx.harness(binary, ["pack-record", rpath, str(runs), str(max_files)] + ([] if ctx.quick() else ["big"]))
+    recorded = vlib.read_ndjson(rpath)
+    events += recorded
+    _validate(ctx, events)
     ctx.traces += len(events)
     ctx.evaluations += len(events)
-    ctx.nontrivial += sum(1 for e in events if e["value"])
-    ctx.sample({"recorded_files_per_event": [len(e["value"]) for e in events[:12]]})
-    ctx.extra["recorded_events"] = len(events)
-    ctx.extra["max_files_recorded"] = max(len(e["value"]) for e in events)
+    ctx.nontrivial += sum(1 for e in recorded if e["value"])
+    ctx.sample({"recorded_files_per_event": [len(e["value"]) for e in recorded[:12]]})
+    ctx.extra["validated_images_of_generated_values"] = n_replay_events
+    ctx.extra["recorded_events"] = len(recorded)
+    ctx.extra["max_files_recorded"] = max(len(e["value"]) for e in recorded)
     ctx.exhaustive = True
     ctx.assumptions += ["bounded model: 0..3 files exhaustively (see rule); larger archives only by seeded sampling",
                         "names are taken from the lossless Shift-JIS domain; the codec (encoding_rs) is trusted",
-                        "byte-exact comparison of serialize() with CanonPack relies on the repository's golden test "
-                        "pinning where the zero padding goes (the statement fixes everything else)",
+                        "placement and padding of names, and trailing padding of the file, are not demanded of the builder "
+                        "(byte differences from CanonPack are counted in informational_mismatches only)",
                         "a wrong magic / oversized fields are C05, not exercised here"]
     cc.finish_unbuildable(ctx, unb)
 
 
 def replay(ctx, rp):
-    binary = ctx.build("release", "mvh_cont")
+    binary = ctx.build(rp["sig"].get("profile", "release") if rp["sig"].get("profile") in ("release", "checked") else "release", "mvh_cont")
     d = rp["detail"]
     if "case" in d:
-        summ, mism, unb = cc.replay(ctx, binary, "pack-replay", [d["case"]], "pack")
-        for o in mism:
-            print(o["what"], "got:", str(o["got"])[:400])
-        if mism:
-            ctx.violation(rp["sig"], d)
+        summ, unb, events = _replay(ctx, binary, [d["case"]], "pack", rp["sig"].get("profile", "release"))
+        _validate(ctx, events)
     else:
         print("recorded event (re-run ./check C15 --tier %s --seed %s to reproduce): files=%s" %
               (rp.get("tier"), rp.get("seed"), rp["sig"].get("files")))
